@@ -445,6 +445,55 @@ example : (Generated.FuncsIO.trackSkip IOFail.never { env := ⟨false, ""⟩, sk
     (Generated.FuncsIO.trackSkip IOFail.never { env := ⟨false, ""⟩, skipped := [[65]] } ⟨[66], 0⟩).tev =
       [TEvent.log Generated.go_skippedMsg] := ⟨rfl, rfl⟩
 
+/-! ## 5b. the exported wrappers `Skip`, `Skipf`, `SkipNow`
+
+Each records the test first (`trackSkip`) and only then hands over to `testing`'s own method — the
+order matters, because `t.Skip*` ends the goroutine (`runtime.Goexit`): a wrapper that skipped first
+would never record the name and `Clean` would report the test's snapshots obsolete. The events are
+exactly what the driver answers for the `skip` op of the correspondence protocol. -/
+
+theorem Skip_tied (io : IOFail) (st : St) (t : T) (args : List Text) :
+    Generated.FuncsIO.Skip io st t args =
+      { st with skipped := st.skipped ++ [t.name],
+                tev := st.tev ++ [TEvent.log Generated.go_skippedMsg, TEvent.skip []] } := by
+  simp [Generated.FuncsIO.Skip, trackSkip_tied, St.tSkip, Id.run]; rfl
+
+theorem Skipf_tied (io : IOFail) (st : St) (t : T) (format : Text) (args : List Text) :
+    Generated.FuncsIO.Skipf io st t format args =
+      { st with skipped := st.skipped ++ [t.name],
+                tev := st.tev ++ [TEvent.log Generated.go_skippedMsg, TEvent.skipf []] } := by
+  simp [Generated.FuncsIO.Skipf, trackSkip_tied, St.tSkipf, Id.run]; rfl
+
+theorem SkipNow_tied (io : IOFail) (st : St) (t : T) :
+    Generated.FuncsIO.SkipNow io st t =
+      { st with skipped := st.skipped ++ [t.name],
+                tev := st.tev ++ [TEvent.log Generated.go_skippedMsg, TEvent.skipNow] } := by
+  simp [Generated.FuncsIO.SkipNow, trackSkip_tied, St.tSkipNow, Id.run]; rfl
+
+/-- whichever wrapper is used, the name is on the skip list when `testing` takes over, and the skip
+    list of the state follows the model's `trackSkip` -/
+theorem skip_wrappers_model (io : IOFail) (st : St) (w : World) (t : T) (format : Text) (args : List Text)
+    (h : st.skipped = w.skipped) :
+    (Generated.FuncsIO.Skip io st t args).skipped = (GoSnaps.trackSkip w t.name).skipped ∧
+    (Generated.FuncsIO.Skipf io st t format args).skipped = (GoSnaps.trackSkip w t.name).skipped ∧
+    (Generated.FuncsIO.SkipNow io st t).skipped = (GoSnaps.trackSkip w t.name).skipped := by
+  rw [Skip_tied, Skipf_tied, SkipNow_tied]; simp [GoSnaps.trackSkip, h]
+
+/-- the wrappers touch nothing but the skip list and the test's own event log -/
+theorem skip_wrappers_frame (io : IOFail) (st : St) (t : T) (format : Text) (args : List Text) :
+    (Generated.FuncsIO.Skip io st t args).fs = st.fs ∧ (Generated.FuncsIO.Skipf io st t format args).fs = st.fs ∧
+    (Generated.FuncsIO.SkipNow io st t).fs = st.fs ∧
+    (Generated.FuncsIO.Skip io st t args).reg = st.reg ∧ (Generated.FuncsIO.Skipf io st t format args).reg = st.reg ∧
+    (Generated.FuncsIO.SkipNow io st t).reg = st.reg ∧
+    (Generated.FuncsIO.Skip io st t args).events = st.events ∧
+    (Generated.FuncsIO.Skipf io st t format args).events = st.events ∧
+    (Generated.FuncsIO.SkipNow io st t).events = st.events := by
+  rw [Skip_tied, Skipf_tied, SkipNow_tied]; simp
+
+example : (Generated.FuncsIO.Skip IOFail.never { env := ⟨false, ""⟩, skipped := [[65]] } ⟨[66], 0⟩ []).skipped = [[65], [66]] ∧
+    (Generated.FuncsIO.SkipNow IOFail.never { env := ⟨false, ""⟩ } ⟨[66], 0⟩).tev =
+      [TEvent.log Generated.go_skippedMsg, TEvent.skipNow] := ⟨rfl, rfl⟩
+
 /-! ## `os.ReadDir`: GoIO's `dirEntries` is the model's `readDir` -/
 
 def entPair (e : DirEntry) : Text × Bool := (e.name, e.isDir)
